@@ -332,6 +332,19 @@ loop:
 			if !stop.keepWorking {
 				return
 			}
+			// Any work-in-progress was canceled. Forget about it, keeping
+			// ownership of any buffer that was not yet sent out.
+			if outWork.buffer != nil {
+				for i := range buffers {
+					if buffers[i] == nil {
+						buffers[i] = outWork.buffer
+						break
+					}
+				}
+			}
+			input, output = reqc, nil
+			outWork = rWork{}
+			dRange = Range{}
 			continue loop
 
 		case inWork := <-input:
@@ -441,6 +454,10 @@ loop:
 			if !stop.keepWorking {
 				return
 			}
+			// Any work-in-progress was canceled. Wait for a new roi.
+			input, output = roic, nil
+			roi = Range{}
+			work = rWork{}
 			continue loop
 
 		case roi = <-input:
